@@ -90,7 +90,9 @@ func (s *JavaAPIListener) EnterAnnotation(ctx *parser.AnnotationContext) {
 	}
 
 	if !hasEnterClass {
+		// class-level annotation: it only sets the base path, it never starts a handler entry
 		buildBaseApiUrlString(annotationName, ctx)
+		return
 	}
 
 	notAPI := annotationName == "RequestMapping" || annotationName == "GetMapping" || annotationName == "PutMapping" || annotationName == "PostMapping" || annotationName == "DeleteMapping"
